@@ -1,8 +1,9 @@
 """C12 — Expansion cutoff never shrinks and keeps headroom."""
+from checks import full_step
 from checks import pure_fns
 from checks import extra_audits
-LEAN_TARGETS = ["QmcProps.C12", "drv_c12"]
-BINS = ["c12"]
+LEAN_TARGETS = ["drv_step", "QmcProps.C12", "drv_c12"]
+BINS = ["fullstep", "c12"]
 
 THEOREMS = [
     "cutoff_mono",
@@ -58,4 +59,5 @@ def main(ck):
         ck.notes.append("sanity_* entries of input_distribution are a statistical illustration (energy from cutoff 1 vs a generous cutoff), not a checked claim")
     ck.assumptions.append("the clause 'hence reaches the same averages' is physics (truncation error of the SSE series for cutoff > n with margin); proved is the headroom invariant only")
     ck.assumptions.append("a user who lowers the cutoff by hand with set_cutoff below the container length leaves the domain (Inv) of the run theorems")
+    full_step.run(ck)
     return ck.finish(RULE)
